@@ -79,7 +79,7 @@ fn case_strategy(_t: Tier) -> BoxedStrategy<Case> {
         2 => (0u8..15, fe_random()).prop_map(|(eval, by)| Attack::RefShift { eval, by }),
         2 => Just(Attack::Splice),
         1 => Just(Attack::Degenerate),
-        2 => (0u8..2, prop_oneof![Just(Fe(F::one())), fe_random()], proptest::option::of(edits()))
+        3 => (0u8..4, prop_oneof![Just(Fe(F::one())), fe_random()], proptest::option::of(edits()))
             .prop_map(|(early, shift, edits)| Attack::LateBoundOpenings { early, shift, edits }),
         3 => (prop_oneof![3 => Just(0u8), 1 => 1u8..4], edits()).prop_map(|(which, edits)| Attack::ZeroSelector { which, edits }),
         4 => (prop_oneof![1 => 0u8..3, 2 => 3u8..5], prop_oneof![3 => 1u8..4, 1 => 1u8..18], fe_random()).prop_map(|(region, count, with)| Attack::ClaimedInputs { region, count, with }),
